@@ -1126,7 +1126,8 @@ class RZILTransformer(Transformer):
         If the hybrid is a sub-routine with a return type of void, this returns the hybrid.
         """
         if hybrid.value_type.group & VTGroup.VOID:
-            return hybrid
+            # It is a statement. Side effects of its arguments take place right before it.
+            return self.chk_hybrid_dep(hybrid)
 
         tmp_x_name = f"{self.hybrid_tmp_prefix}{self.il_ops_holder.hybrid_op_count}"
         self.il_ops_holder.hybrid_op_count += 1
